@@ -231,9 +231,9 @@ def vc_grade(H, frame=False):
             grades = (1, 3)
             r = clo(me, *grades) if form == 'ints' else clo(me, grades)
             ok = isinstance(r, tuple) and len(r) == 4 and r[0] == 'fromkeysvalues' and r[1] is me.alg
-            ctx.oblige('post: returns fromkeysvalues(self.algebra, keys, values)', bool(ok))
             if not ok:
-                return r
+                raise OutOfSubset('grade(): the result is not built by fromkeysvalues(self.algebra, keys, values) (contract does not apply)')
+            ctx.oblige('post: returns fromkeysvalues(self.algebra, keys, values)', True)
             ks, vs = r[2], r[3]
             shared = isinstance(vs, SymSeq) and not isinstance(vs, CompSeq) and getattr(vs, 'getter', None) == me.val
             if frame:
@@ -246,9 +246,11 @@ def vc_grade(H, frame=False):
                 raise OutOfSubset('grade(): path returning the stored keys/values unchanged (not modelled; bounded stand-in decides)')
             okc = isinstance(ks, CompSeq) and isinstance(vs, CompSeq) and getattr(ks, 'base', None) is getattr(vs, 'base', 0) and ks.part == 'keys' \
                 and vs.part == 'values' and hasattr(ks.base.src, 'grades')
-            ctx.oblige('post: keys and values are the two halves of one selection (aligned)', bool(okc))
             if not okc:
-                return r
+                # keys and values computed some other way (two comprehensions, an index look-up per kept key, ..): the clauses
+                # below read the selection through one dict comprehension only -> undecided here, the bounded stand-in decides
+                raise OutOfSubset('grade(): keys and values are not the two halves of one dict comprehension (contract does not apply)')
+            ctx.oblige('post: keys and values are the two halves of one selection (aligned)', True)
             G = ks.base.src
             ctx.oblige('post: candidates are the blades of exactly the requested grades', G.grades == grades)
             i = SInt(z3.Int('i'))
